@@ -157,6 +157,9 @@ pub struct Tally {
     /// the property only bounds the result from above)
     pub short_results: u64,
     pub nonempty_results: u64,
+    /// searches for which the completeness bound was the strongest possible,
+    /// min(k, n): layer 0 strongly connected over the live nodes
+    pub full_bound: u64,
 }
 
 /// The three out-of-distribution queries: far away, the zero vector, and a
@@ -166,6 +169,50 @@ pub fn ood_queries(dim: usize) -> Vec<Vec<f32>> {
     let zero = vec![0.0f32; dim];
     let frac: Vec<f32> = (0..dim).map(|i| -0.3337 - 0.0101 * i as f32).collect();
     vec![far, zero, frac]
+}
+
+fn too_few(q: &[f32], k: usize, res: &[(u64, f32)], r: usize) -> Fail {
+    Fail::new(
+        "too_few",
+        format!(
+            "search({q:?}, k={k}) returned {} results {res:?}, but from every live node at least {r} live nodes are reachable over layer-0 edges: \
+             the documented layer-0 beam of width max(ef_search, k) must return min(k, {r}) = {} of them",
+            res.len(),
+            k.min(r)
+        ),
+    )
+}
+
+/// Completeness bound read off the graph (public `get_node_with`), not off
+/// the search code: R = the minimum over all live nodes x of the number of
+/// live nodes reachable from x along layer-0 edges (x included). Whatever
+/// node the upper-layer descent lands on, the documented layer-0 beam of
+/// width max(ef_search, k) only stops once it holds that many results or has
+/// exhausted what is reachable, so every search must return at least
+/// min(k, R) results. (On a strongly connected layer 0, R = n.)
+pub fn min_forward_reach(index: &anda_db_hnsw::HnswIndex, model: &VecModel) -> usize {
+    let mut adj: BTreeMap<u64, Vec<u64>> = BTreeMap::new();
+    for id in model.live.keys() {
+        let edges = index
+            .get_node_with(*id, |n| n.neighbors.first().map(|l| l.iter().map(|(i, _)| *i).collect::<Vec<u64>>()).unwrap_or_default())
+            .unwrap_or_default();
+        adj.insert(*id, edges.into_iter().filter(|i| model.live.contains_key(i)).collect());
+    }
+    let mut best = usize::MAX;
+    for start in adj.keys() {
+        let mut seen = std::collections::BTreeSet::new();
+        let mut stack = vec![*start];
+        seen.insert(*start);
+        while let Some(x) = stack.pop() {
+            for y in &adj[&x] {
+                if seen.insert(*y) {
+                    stack.push(*y);
+                }
+            }
+        }
+        best = best.min(seen.len());
+    }
+    if best == usize::MAX { 0 } else { best }
 }
 
 /// Full soundness oracle of an index against `model` (and, for an
@@ -179,6 +226,7 @@ pub fn check_index(
     alt: Option<&VecModel>,
     tally: &mut Tally,
 ) -> Result<(), Fail> {
+    let min_results = if alt.is_none() { Some(min_forward_reach(index, model)) } else { None };
     check_with(
         &|q, k| index.search_f32(q, k).map_err(|e| e.to_string()),
         (index.len(), index.stats().num_elements),
@@ -186,6 +234,7 @@ pub fn check_index(
         dim,
         model,
         alt,
+        min_results,
         tally,
     )?;
     // the bf16 entry point `search`: same oracle, the query being the
@@ -202,6 +251,11 @@ pub fn check_index(
                 .search(&qb, k)
                 .map_err(|e| Fail::new("search_error", format!("search({qf:?} as bf16, {k}) failed: {e}")))?;
             check_result(metric, &qf, k, &res, &|id| model.live.get(&id).cloned().into_iter().collect())?;
+            if let Some(r) = min_results {
+                if res.len() < k.min(r) {
+                    return Err(too_few(&qf, k, &res, r));
+                }
+            }
         }
     }
     Ok(())
@@ -216,6 +270,7 @@ pub fn check_with(
     dim: usize,
     model: &VecModel,
     alt: Option<&VecModel>,
+    min_results: Option<usize>,
     tally: &mut Tally,
 ) -> Result<(), Fail> {
     let mut queries: Vec<Vec<f32>> = model.live.values().cloned().collect();
@@ -264,6 +319,14 @@ pub fn check_with(
                 Err(e) => return Err(Fail::new("search_error", format!("search_f32({q:?}, {k}) failed: {e}"))),
             };
             check_result(metric, q, k, &res, &vectors_of)?;
+            if let Some(r) = min_results {
+                if res.len() < k.min(r) {
+                    return Err(too_few(q, k, &res, r));
+                }
+                if r == model.len() {
+                    tally.full_bound += 1;
+                }
+            }
             if !res.is_empty() {
                 tally.nonempty_results += 1;
             }
